@@ -16,7 +16,7 @@ PROPS["C09"] = {
                    "{Verify, VerifyWithOptions, Add, AddWithOptions, AddPublicKey, direct Get/Put} with capacity 1..4 over 6 keys; decisions equal plain "
                    "verification and after every step the store/list/recency invariants hold against verifref.LRU. Randomizers (internal/scalar128): "
                    "every coefficient of the linear combination is in [1, 2^128], 256 consecutive ones are distinct with no stuck bit, they depend on "
-                   "the entropy, and a source that dries up is an error. Does not prove absence."),
+                   "the entropy, and a source that dries up is an error. Does not prove absence. Histories also contain a valid entry replayed under another (undecodable / wrong-length / foreign) key once or twice in a row, and callers that keep ONE Options object (fields overwritten before every Add). A cache constructor that returns another implementation of the Cache interface is judged as a black box."),
     "level_note": ("Trusted: math/big, verifref (self-tested against RFC 8032 vectors and crypto/ed25519), rapid. The per-entry oracle of the batch/cache "
                    "histories is the library's own single verification (the property is an agreement property); it is tied to the independent reference "
                    "on the first step of every expanded-key case and by C01. A false batch accept needs a ~2^-125 event over the ChaCha-derived "
